@@ -48,6 +48,21 @@ def run_case(cfg, script, tail_loops=None):
         return orig_fork(master)
     w.k_kill = k_kill
     w.k_fork = k_fork
+    w.oracle_notes = []
+    st = {"num": None, "loads": 0}
+
+    def probe(world, code):
+        a = world.arbiter
+        num = int(a.num_workers)
+        loads = sum(1 for e in world.events if e[0] == "load_config")
+        if st["num"] is not None and num == 0 and st["num"] == 1 and loads == st["loads"]:
+            world.oracle_notes.append("the target went from 1 to 0 workers without a reload (TTOU must not go below 1)")
+        st["num"], st["loads"] = num, loads
+        if code == L.Y_SLEEP and world.stopping_at is None:
+            n = dict.__len__(a.WORKERS)
+            if n > num:
+                world.oracle_notes.append("spawn_workers registered worker number %d although the target is %d" % (n, num))
+    w.probe = probe
     w.run(script, policy=L.make_settle(tail_loops))
     if w.closed_listeners:
         pass
@@ -84,9 +99,14 @@ def judge(cfg, w):
             told.add(pid)
         if sig in (SIG["TERM"], SIG["QUIT"], SIG["KILL"], SIG["ABRT"]):
             told.add(pid)
+    for note in sorted(set(w.oracle_notes)):
+        fails.append((note, None))
     if ages != sorted(ages) or len(set(ages)) != len(ages):
         fails.append(("worker ages not strictly increasing in WORKERS: %r" % (ages,), None))
-    if out == "done":
+    if out == "done" and boot_reaped:
+        fails.append(("a worker exited with boot-failure code %d and was reaped, but the master keeps serving (respawn loop)" %
+                      (boot_reaped[0][1] >> 8), None))
+    elif out == "done":
         # still serving after the fair tail: converged?
         phantoms = [p for p in wp if p not in st["running"] and p not in st["zombies"]]
         problems = []
@@ -101,7 +121,7 @@ def judge(cfg, w):
         if problems:
             key = None
             # D17 signature: every discrepancy is a tracked pid that was reaped before it was registered, timeout = 0
-            if w.arbiter.timeout == 0 and phantoms and all(p in reaped for p in phantoms) \
+            if w.arbiter.timeout == 0 and phantoms and all(L.reaped_before_registration(w, p) for p in phantoms) \
                     and sorted(p for p in wp if p not in phantoms) == sorted(st["running"]) and not st["zombies"] and not st["queue"]:
                 key = KEY_D17
             fails.append(("after events stopped the pool did not converge: " + "; ".join(problems), key))
@@ -116,7 +136,8 @@ def judge(cfg, w):
         if w.forks_after_stop:
             fails.append(("%d fork(s) after the master began to halt" % w.forks_after_stop, None))
     elif out == "crash":
-        key = KEY_D22 if len(boot_reaped) >= 2 else None
+        key = KEY_D22 if (len(boot_reaped) >= 2 and w.stopping_at is not None
+                          and w.reap_at.get(boot_reaped[-1][0], -1) >= w.stopping_at) else None
         fails.append(("HaltServer escaped from Arbiter.run() (exit status 1 with a traceback, pid file kept): %s; boot failures reaped: %r"
                       % (w.outcome[1], boot_reaped), key))
     else:
